@@ -16,6 +16,23 @@ OBLIGATIONS = (("Init => IndInv", ["--init=Init", "--inv=IndInv", "--length=0"])
 # an invariant of the (arbitrary) initial states
 C01_OBLIGATIONS = tuple((inv, ["--init=Init", f"--inv={inv}", "--length=0"]) for inv in
                         ("C01_IndexPointInverse", "C01_PointInOwnCell", "C01_CellsTileOnce", "C01_CentresIncrease", "C01_OutsideInNoCell"))
+def _inits(*invs):
+    return tuple((inv, ["--init=Init", f"--inv={inv}", "--length=0"]) for inv in invs)
+
+
+# spec/C07Core.tla: selection, padding, refinement on the unbounded 1-d integer lattice
+C07_OBLIGATIONS = _inits("C07_SelectionKeepsPositions", "C07_SelectionCellAligned", "C07_PaddingKeepsPositions", "C07_PaddingNewCellsOutside",
+                         "C07_RefinementTakesContainingCell")
+C07_CLAIM = ("Apalache: on the 1-d integer lattice (spec/C07Core.tla) the cells of a range selection and of a padded mesh lie exactly where the "
+             "source cells they take their values from lie, new padding cells lie outside the source, and the centre of a refined cell lies "
+             "strictly inside the source cell k div m - for unbounded corners, cell sizes, counts and requests (%d of %d obligations, "
+             "reported, not relied on)")
+# spec/C12Core.tla: the quarter turn in the plane of two axes on the unbounded 2-d integer lattice
+C12_OBLIGATIONS = _inits("C12_ResultNormal", "C12_CellsMoveWithTheTurn", "C12_VectorsTurn", "C12_TwoTurnsHalfTurn", "C12_FourTurnsIdentity",
+                         "C12_ReferenceFixed")
+C12_CLAIM = ("Apalache: on the 2-d integer lattice (spec/C12Core.tla) a quarter turn about any reference point carries the centre of cell (i, j) "
+             "to the centre of cell (ny-1-j, i) of a normal mesh with swapped counts and cell sizes, vectors turn with the positions, two turns "
+             "are the half turn and four the identity - for unbounded coordinates (%d of %d obligations, reported, not relied on)")
 C14_CLAIM = ("Apalache: a subregion inside the mesh region, on cell faces and a whole positive number of cells long stays so under translation, "
              "scaling by any non-zero integer factor about any point and the half turn (spec/C14Core.tla, inductive invariant for "
              "unbounded coordinates; %d of %d obligations, reported, not relied on)")
